@@ -45,11 +45,14 @@ type Box struct {
 	LagAt uint8 `json:"lag_only_at_node,omitempty"` // 0: every node may enter lag mode (lag and plag alike)
 	// CampaignBy[t] lists the nodes that may campaign while their own term is t (i.e. for
 	// term t+1); a term without an entry is unrestricted.
-	CampaignBy   map[uint64][]int `json:"campaign_only_by_nodes_at_term,omitempty"`
-	CrashAt      []int            `json:"crash_only_at_nodes,omitempty"` // nil: every node may crash
-	ConfVariants []uint16         `json:"-"`                             // nil: every conf-change variant
-	ConfNames    []string         `json:"conf_change_variants,omitempty"`
-	Restrictions []string         `json:"stated_restrictions,omitempty"`
+	CampaignBy map[uint64][]int `json:"campaign_only_by_nodes_at_term,omitempty"`
+	CrashAt    []int            `json:"crash_only_at_nodes,omitempty"` // nil: every node may crash
+	// PlagEmpty: plag(n) only while n's persisted log is empty (a joiner whose application is
+	// slow from the moment it joins)
+	PlagEmpty    bool     `json:"plag_only_while_the_log_of_the_node_is_empty,omitempty"`
+	ConfVariants []uint16 `json:"-"` // nil: every conf-change variant
+	ConfNames    []string `json:"conf_change_variants,omitempty"`
+	Restrictions []string `json:"stated_restrictions,omitempty"`
 	// CollectAll (Box B): a violation does not abandon the box at once; the current deviation
 	// layer is finished first (violating transitions are never expanded), so that every
 	// invariant that is violated inside the layer is reported with its shortest run
@@ -121,6 +124,9 @@ func (b *Box) candidates(c *cluster, dev int) []cand {
 					if who, ok := b.CampaignBy[c.nodes[i].status.Term]; ok && !hasNode(who, n) {
 						continue
 					}
+				}
+				if k == evPLag && b.PlagEmpty && c.nodes[i].lastIndex() != 0 {
+					continue
 				}
 				if k == evCrash && b.CrashAt != nil && !hasNode(b.CrashAt, n) {
 					continue
